@@ -267,7 +267,7 @@ fn typeword_from_bitfield_total() {
     }
 }
 
-// @harness name=typeword_roundtrip kind=Pc tier=quick props=C06,C01 desc="for every column definition (Int16, Int32, Str(w) for every usize w; all flag combinations; category none/Binary/other): either the definition is refused as not storable, or Column::bitfield() fits the Int16 catalog cell and with_bitfield(bitfield()) gives back the same type, width and flags"
+// @harness name=typeword_roundtrip kind=Pc tier=quick props=C06,C01,C20 desc="for every column definition (Int16, Int32, Str(w) for every usize w; all flag combinations; category none/Binary/other): either the definition is refused as not storable, or Column::bitfield() fits the Int16 catalog cell and with_bitfield(bitfield()) gives back the same type, width and flags"
 #[kani::proof]
 #[kani::unwind(3)]
 #[kani::stub(alloc::fmt::format, stub_format)]
